@@ -48,6 +48,10 @@ type SimConn struct {
 	pendErr error // sticky error reported once the buffer is drained
 	// ShortRead, if set, is asked how many of the avail bytes a Read returns.
 	ShortRead func(avail, want int) int
+	// DataErr makes a Read that drains the buffer report the pending error together with the data
+	// (io.Reader allows n > 0 with a non-nil error; iotest.DataErrReader behaves so).
+	DataErr   bool
+	OnDataErr func()
 	// counters
 	Peeks, Reads, Discards, Fills int
 	views                         [][]byte // views handed out since the last read call (ReallocPoison)
@@ -199,5 +203,11 @@ func (c *SimConn) Read(p []byte) (int, error) {
 	}
 	copy(p, c.buf[c.r:c.r+n])
 	c.r += n
+	if c.DataErr && c.w-c.r == 0 && c.pendErr != nil {
+		if c.OnDataErr != nil {
+			c.OnDataErr()
+		}
+		return n, c.pendErr
+	}
 	return n, nil
 }
